@@ -353,6 +353,12 @@ class Env:
                 self.intrinsic.append((me, a, 0))
                 if c.base is None and c.off > 0 and a.base is None:
                     pass
+            elif base_op == "Shl" and unsigned and c.base is None and 0 <= c.off < 64 and ty_range(aty or ""):
+                # (x << k) is a multiple of 2^k: at most MAX + 1 - 2^k
+                hi = ty_range(aty)[1] + 1 - (1 << c.off)
+                if hi >= 0:
+                    self.intrinsic.append((me, zero, hi))
+                    me.rng = (0, hi) if me.rng is None else (max(0, me.rng[0]), min(me.rng[1], hi))
             elif base_op == "Shr" and unsigned:
                 self.intrinsic.append((me, a, 0))
                 if c.base is None and c.off >= 0:
@@ -387,6 +393,9 @@ class Env:
         ty = b.lty(l) if l is not None else None
         short = nm.rsplit("::", 1)[-1]
         if short == "len" and len(args) == 1 and ("slice" in nm or "Vec" in nm or "str" in nm or "String" in nm or "VecDeque" in nm or "array" in nm):
+            n = self.array_len(t["args"][0])
+            if n is not None:
+                return Term(None, n, (), "usize")
             return Term("len(%s)" % strip_ref(repr(args[0])), 0, len_reads(reads), "usize")
         if short in ("deref", "deref_mut", "as_slice", "as_bytes", "as_ref", "as_mut_slice", "borrow", "as_str") and len(args) == 1:
             # transparent views keep the length
@@ -809,6 +818,28 @@ class Env:
                 facts.append(((vt, hi, 0 if incl else -1), dpos, v))
         return facts
 
+    def array_len(self, o, depth=6):
+        """N when operand o is (a reference to / an unsized view of) a place of type [T; N]; else None."""
+        b = self.b
+        p = op_place(o)
+        if p is None or depth <= 0:
+            return None
+        if not [e for e in p["p"] if e != "*"]:
+            m = re.search(r"^&?(?:mut )?\[[^\[\];]*; (\d+)\]$", b.lty(p["l"]).strip())
+            if m:
+                return int(m.group(1))
+        if p["p"] or p["l"] in b.names or self.is_arg(p["l"]):
+            return None
+        d = b.single_def(p["l"])
+        if d is None or d[2] != "rv":
+            return None
+        rv = d[3]
+        if rv["k"] == "use" or (rv["k"] == "cast" and rv["kind"].startswith("PointerCoercion(Unsize")):
+            return self.array_len(rv["o"], depth - 1)
+        if rv["k"] == "ref":
+            return self.array_len({"c": rv["p"]}, depth - 1)
+        return None
+
     def static_len_upper(self, o, depth=8):
         """static upper bound on the length of the array / slice / Vec view denoted by operand o (None = unknown)."""
         b = self.b
@@ -959,6 +990,62 @@ class Env:
             seen.add(x)
             st.extend(y for y in b.succ[x] if y in blocks and y != must)
         return True
+
+    def enumerate_take_facts(self):
+        """for (i, x) in it.take(n).enumerate()  (or .enumerate().take(n))  =>  0 <= i <= n - 1  (n constant)."""
+        b = self.b
+        facts = []
+        for c in b.calls:
+            if not (c.fn or "").endswith("Iterator::next"):
+                continue
+            full = c.full or ""
+            if not re.search(r"iter::Enumerate<(std|core)::iter::Take<|iter::Take<(std|core)::iter::Enumerate<", full):
+                continue
+            it = self._deref_local(c.args[0])
+            if it is None or c.dest["p"]:
+                continue
+            # walk the adaptor chain back to the take(_, n)
+            n = None
+            cur = {"c": {"l": it, "p": []}}
+            for _ in range(8):
+                p = op_place(cur)
+                if p is None or p["p"]:
+                    break
+                d = b.single_def(p["l"])
+                if d is None:
+                    break
+                if d[2] == "rv" and d[3]["k"] == "use":
+                    cur = d[3]["o"]
+                    continue
+                if d[2] != "call":
+                    break
+                short = (d[3]["f"].get("fn") or "").rsplit("::", 1)[-1]
+                if short == "take" and len(d[3]["args"]) == 2:
+                    k = op_const(d[3]["args"][1])
+                    n = const_int(k) if k is not None else None
+                    break
+                if short in ("enumerate", "into_iter") and d[3]["args"]:
+                    cur = d[3]["args"][0]
+                    continue
+                break
+            if n is None or n <= 0:
+                continue
+            for bi, si, s in b.stmts():
+                rv = s.get("rv")
+                if not rv or rv["k"] != "use" or s["lhs"]["p"]:
+                    continue
+                p = op_place(rv["o"])
+                if p is None or p["l"] != c.dest["l"] or len(p["p"]) != 3:
+                    continue
+                e0, e1, e2 = p["p"]
+                if not (isinstance(e0, dict) and e0.get("down") == "Some" and isinstance(e1, dict) and e1.get("f") == 0
+                        and isinstance(e2, dict) and e2.get("f") == 0):
+                    continue
+                v = s["lhs"]["l"]
+                vt = Term(self.uname(v), 0, [(v, (bi, si))], b.lty(v))
+                facts.append(((Term(None, 0), vt, 0), (bi, si), v))
+                facts.append(((vt, Term(None, n - 1), 0), (bi, si), v))
+        return facts
 
     def chunk_var_facts(self):
         """for c in s.chunks_exact(k) / s.windows(k)  =>  len(c) == k ;  s.chunks(k)  =>  1 <= len(c) <= k  (k constant)."""
@@ -1328,6 +1415,8 @@ def knowledge(env, site_bb, site_idx, terms):
         cands.append((fx, "loop"))
     for item in env.chunk_var_facts():
         cands.append((item[0], "chunk"))
+    for item in env.enumerate_take_facts():
+        cands.append((item[0], "enumerate-take"))
     # locals mentioned anywhere (facts or requirement)
     mentioned = set()
     for t in terms:
